@@ -102,6 +102,10 @@ def replay(rec, ctx):
         row_i = calculate_admt(radii, ops, psi_i, float(g["dx"]), float(g["dy"]), anisotropy=c["a"])[i]
         if not np.all(np.isfinite(row_i)) or abs(float(row_i @ f) - got) > 1e-9 * max(1.0, abs(got)):
             viol.append({"sig": "admt:depends-on-the-dtype-of-the-flux-map", "detail": f"grid {g}, cell ({c['ix']},{c['iy']}), psi {c['psi']} as int64: {float(row_i @ f)!r} vs {got!r}"})
+    psi_s = np.repeat(psi, 2)[::2]          # the same numbers as a strided (non-contiguous) view
+    row_s2 = calculate_admt(np.repeat(radii, 2)[::2], ops, psi_s, float(g["dx"]), float(g["dy"]), anisotropy=c["a"])[i]
+    if not np.all(np.isfinite(row_s2)) or abs(float(row_s2 @ f) - got) > 1e-9 * max(1.0, abs(got)):
+        viol.append({"sig": "admt:depends-on-the-memory-layout-of-its-inputs", "detail": f"grid {g}, cell ({c['ix']},{c['iy']}): {float(row_s2 @ f)!r} vs {got!r}"})
     for e in (-8, 8):               # GridOps.tla: FluxScaleExps
         row_s = calculate_admt(radii, ops, psi * 10.0 ** e, float(g["dx"]), float(g["dy"]), anisotropy=c["a"])[i]
         if not np.all(np.isfinite(row_s)) or abs(float(row_s @ f) - got) > 1e-8 * max(1.0, abs(got)):
